@@ -210,6 +210,7 @@ func (rule *overlappingFieldsCanBeMergedRule) collectConflictsBetweenFieldsAndFr
 		return conflicts
 	}
 	rule.comparedFieldsAndFragmentSet.Add(fieldsInfo, fragmentName, areMutuallyExclusive)
+	verifStep(4)
 
 	fragment := rule.context.Fragment(fragmentName)
 	if fragment == nil {
@@ -257,6 +258,7 @@ func (rule *overlappingFieldsCanBeMergedRule) collectConflictsBetweenFragments(c
 		return conflicts
 	}
 	rule.comparedSet.Add(fragmentName1, fragmentName2, areMutuallyExclusive)
+	verifStep(5)
 
 	fieldsInfo1 := rule.getReferencedFieldsAndFragmentNames(fragment1)
 	fieldsInfo2 := rule.getReferencedFieldsAndFragmentNames(fragment2)
@@ -379,6 +381,7 @@ func (rule *overlappingFieldsCanBeMergedRule) collectConflictsBetween(conflicts 
 
 // findConflict Determines if there is a conflict between two particular fields.
 func (rule *overlappingFieldsCanBeMergedRule) findConflict(parentFieldsAreMutuallyExclusive bool, responseName string, field *fieldDefPair, field2 *fieldDefPair) *conflict {
+	verifStep(3)
 
 	parentType1 := field.ParentType
 	ast1 := field.Field
@@ -475,6 +478,7 @@ func (rule *overlappingFieldsCanBeMergedRule) getFieldsAndFragmentNames(parentTy
 	if cached, ok := rule.cacheMap[selectionSet]; ok && cached != nil {
 		return cached
 	}
+	verifStep(6)
 
 	astAndDefs := astAndDefCollection{}
 	fieldsOrder := []string{}
